@@ -72,6 +72,26 @@ def plus_iverson(arg):
     return False
 
 
+def nonzero_in_every_case(arg):
+    """The integer `arg` is non-zero whichever way the tests inside it come out: e + [e == 0] in any spelling
+    (`e + (e == 0)`, `e + (1 if e == 0 else 0)`, `e if e != 0 else 1`, ...)."""
+    from ..hints import Valuer, all_cases, Undecidable
+    from ..poly import P
+    res = all_cases(lambda v: v._p(arg), lambda: Valuer({}), max_cases=8)
+    if not res:
+        return False
+    for _desc, p, v in res:
+        if isinstance(p, str) or v is None:
+            return False
+        if p.is_const():
+            if p.const_value() == 0:
+                return False
+            continue
+        if not any(p == z or p == -z for z in v.facts.nonzero):
+            return False
+    return True
+
+
 def rule_raises(repo, rule, modules, keyprefix=""):
     it = get_interp(repo)
     for key, rec in sorted(it.raise_paths.items()):
@@ -110,7 +130,8 @@ def rule_implicit(repo, rule, modules):
             arg = node.args[0] if node.args else None
             txt = norm(arg)
             from ..flatten import resolve_locals as _rl
-            ok = plus_iverson(arg) or plus_iverson(_rl(rec["fi"].node, arg)) or excludes_zero(rec["conds"], txt)
+            ok = plus_iverson(arg) or plus_iverson(_rl(rec["fi"].node, arg)) or excludes_zero(rec["conds"], txt) \
+                or (arg is not None and nonzero_in_every_case(_rl(rec["fi"].node, arg)))
         else:
             div = node.right if isinstance(node, ast.BinOp) else None
             txt = norm(div)
@@ -125,12 +146,11 @@ def rule_implicit(repo, rule, modules):
 
 def _dominating_zero_raise(fi, node, txt):
     """`if <txt> == 0: raise ...` earlier in the same block chain (early exit on zero)."""
-    for n in ast.walk(fi.node):
-        if isinstance(n, ast.If) and n.lineno < node.lineno and n.body and isinstance(n.body[0], ast.Raise):
-            t = n.test
-            if isinstance(t, ast.Compare) and len(t.ops) == 1 and isinstance(t.ops[0], ast.Eq) and \
-                    norm(t.left) == txt and norm(t.comparators[0]) == "0":
-                return True
+    from ..hints import must_conds
+    for t, pol in must_conds(fi.node, node):
+        if isinstance(t, ast.Compare) and len(t.ops) == 1 and norm(t.left) == txt and norm(t.comparators[0]) == "0" and (
+                (isinstance(t.ops[0], ast.Eq) and not pol) or (isinstance(t.ops[0], ast.NotEq) and pol)):
+            return True
     return False
 
 
@@ -174,6 +194,12 @@ def rule_dummy_path(repo, rule):
         arm = guarded_if.orelse
     if value_split:
         rule.note(fi.loc(guarded_if), fi.fq, "dummy path selected by `%s`" % value_split, "taken whenever the guard's value is 0")
+    if not arm:
+        # guard clause: `if guard is None: <unguarded>; return` - the guarded arm is the rest of the function
+        other = guarded_if.body if arm is guarded_if.orelse else guarded_if.orelse
+        from ..flatten import _terminates
+        if other and _terminates(other) and guarded_if in fi.node.body:
+            arm = fi.node.body[fi.node.body.index(guarded_if) + 1:]
     calls = [c for s in arm for c in ast.walk(s) if isinstance(c, ast.Call)]
     params = fi.params[:3]
     v, w, y = params
